@@ -11,6 +11,7 @@ import (
 	"github.com/zmap/zcrypto/cryptobyte"
 	cbasn1 "github.com/zmap/zcrypto/cryptobyte/asn1"
 	"github.com/zmap/zcrypto/ct"
+	ctasn1 "github.com/zmap/zcrypto/ct/asn1"
 	ctx509 "github.com/zmap/zcrypto/ct/x509"
 	zasn1 "github.com/zmap/zcrypto/encoding/asn1"
 	zrsa "github.com/zmap/zcrypto/rsa"
@@ -49,6 +50,12 @@ type taggedStruct struct {
 	G zasn1.Enumerated `asn1:"optional"`
 	T time.Time        `asn1:"generalized,optional"`
 	H zasn1.BitString  `asn1:"optional,tag:3"`
+}
+
+// explicitStruct: a mandatory EXPLICIT member followed by an optional one.
+type explicitStruct struct {
+	A int    `asn1:"explicit,tag:0"`
+	B []byte `asn1:"optional,explicit,tag:1"`
 }
 
 func isNil(v any) bool { return v == nil }
@@ -131,6 +138,17 @@ func buildEntries(ocspIssuer, ocspCert *x509.Certificate) {
 	un("pkix.RDNSequence", func() any { return new(pkix.RDNSequence) })
 	un("[]pkix.Extension", func() any { return new([]pkix.Extension) })
 	un("taggedStruct", func() any { return new(taggedStruct) })
+	un("explicitStruct", func() any { return new(explicitStruct) })
+	// the CT fork of the decoder (ct/asn1, used by ct/x509) is a separate code base
+	ctun := func(name string, mk func() any) {
+		addEntry(entry{name: "ct/asn1.Unmarshal(" + name + ")", fam: "asn1", f: func(in []byte) (error, bool) {
+			_, err := ctasn1.Unmarshal(in, mk())
+			return err, false
+		}})
+	}
+	ctun("explicitStruct", func() any { return new(explicitStruct) })
+	ctun("RawValue", func() any { return new(ctasn1.RawValue) })
+	ctun("[]int", func() any { return new([]int) })
 
 	// ---- cryptobyte readers
 	cb := func(name string, f func(s *cryptobyte.String) bool) {
